@@ -858,7 +858,8 @@ fn run_builder(axes: u16, pool: &[Reg], inputs: &[Vec<(usize, i32)>], direct: bo
 
 /// the property's wording checked on the real output: every (k, region) retrievable with the same delta
 fn retrieval_oracle(cx: &mut Ctx, b: &Built, direct: bool, label: &str) -> Option<DStore> {
-    let key = |what: &str| format!("ivs-{}:{}:{}", what, if direct { "direct" } else { "dedup" }, label);
+    // stable key = failure class + storage mode; the generated case is named in the "case" field of the details
+    let key = |what: &str| format!("ivs-{}:{}", what, if direct { "direct" } else { "dedup" });
     let Ok(store) = RStore::read(FontData::new(&b.bytes)) else {
         cx.st.oracle_failure(json!({"key": key("unreadable"), "what": "built store does not parse"}));
         return None;
@@ -888,7 +889,7 @@ fn retrieval_oracle(cx: &mut Ctx, b: &Built, direct: bool, label: &str) -> Optio
             let want: i64 = input.iter().filter(|(r, _)| *r == ri).map(|(_, d)| *d as i64).sum();
             let got: i64 = sub.ridx.iter().zip(row.iter()).filter(|(x, _)| ds.regions.get(**x as usize) == Some(reg)).map(|(_, d)| *d as i64).sum();
             if want != got {
-                cx.st.oracle_failure(json!({"key": key("retrieval"), "what": "retrieved per-region delta differs from the delta set added", "k": k, "region": format!("{:?}", reg), "want": want, "got": got, "input": format!("{:?}", input), "index": [outer, inner]}));
+                cx.st.oracle_failure(json!({"key": key("retrieval"), "what": "retrieved per-region delta differs from the delta set added", "k": k, "region": format!("{:?}", reg), "want": want, "got": got, "input": format!("{:?}", input), "index": [outer, inner], "case": label, "pool": format!("{:?}", b.pool)}));
             }
         }
     }
